@@ -48,63 +48,67 @@ def _strategy(draw):
         if draw(st.integers(0, 3)) == 0:
             pair = [a, b] if draw(st.booleans()) else [b, a]
             nonbond.append(pair + [draw(st.integers(1, 9999)) / 1000.0, draw(st.integers(1, 9999)) / 1000.0])
-    # one molecule type, chain of 4-6 atoms
-    natoms = draw(st.integers(4, 6))
-    atoms = [draw(st.sampled_from(types)) for _ in range(natoms)]
     defines = {}
     if draw(st.booleans()):
         defines["gb_1"] = [_num(draw), _num(draw)]
         defines["ga_2"] = [_num(draw), _num(draw)]
-    inter = []
     tables = {sec: [] for sec in NAT}
+    mols = []
+    for mi in range(draw(st.sampled_from([1, 1, 2, 3]))):
+        # chain of 4-6 atoms
+        natoms = draw(st.integers(4, 6))
+        atoms = [draw(st.sampled_from(types)) for _ in range(natoms)]
+        inter = []
 
-    def typed(idxs):
-        return [btypes[atoms[i]] for i in idxs]
+        def typed(idxs):
+            return [btypes[atoms[i]] for i in idxs]
 
-    for sec, n in NAT.items():
-        windows = [list(range(i, i + n)) for i in range(natoms - n + 1)]
-        for win in windows:
-            if draw(st.integers(0, 2)) == 0:
-                continue
-            if sec == "constraints" and draw(st.booleans()):
-                continue
-            listed = win if draw(st.booleans()) else win[::-1]
-            mode = draw(st.sampled_from(["typed", "typed", "typed", "explicit", "macro"]))
-            func = {"bonds": "1", "constraints": "1", "angles": "1", "dihedrals": draw(st.sampled_from(["9", "1"]))}[sec]
-            if mode == "explicit" or (mode == "macro" and not defines) or (mode == "macro" and sec not in ("bonds", "angles")):
-                params = [func] + [_num(draw) for _ in range(2)] + (["2"] if sec == "dihedrals" else [])
-                inter.append({"sec": sec, "atoms": listed, "params": params, "mode": "explicit"})
-            elif mode == "macro":
-                inter.append({"sec": sec, "atoms": listed, "params": [func, "gb_1" if sec == "bonds" else "ga_2"],
-                              "mode": "macro"})
-            else:
-                inter.append({"sec": sec, "atoms": listed, "params": [func], "mode": "typed"})
-                # table entries that may match
-                key = typed(win)
-                nentries = draw(st.integers(0, 3))
-                for _ in range(nentries):
-                    k = list(key) if draw(st.booleans()) else list(key[::-1])
-                    if sec == "dihedrals":
-                        mask = draw(st.integers(0, 15))
-                        k = ["X" if (mask >> i) & 1 else v for i, v in enumerate(k)]
-                    elif draw(st.integers(0, 5)) == 0:
-                        k[draw(st.integers(0, n - 1))] = draw(st.sampled_from(keyspace))
-                    nterm = draw(st.sampled_from([1, 1, 2, 3])) if sec == "dihedrals" else 1
-                    terms = []
-                    for m in range(nterm):
+        for sec, n in NAT.items():
+            windows = [list(range(i, i + n)) for i in range(natoms - n + 1)]
+            for win in windows:
+                if draw(st.integers(0, 2)) == 0:
+                    continue
+                if sec == "constraints" and draw(st.booleans()):
+                    continue
+                listed = win if draw(st.booleans()) else win[::-1]
+                mode = draw(st.sampled_from(["typed", "typed", "typed", "explicit", "macro"]))
+                func = {"bonds": "1", "constraints": "1", "angles": "1", "dihedrals": draw(st.sampled_from(["9", "1"]))}[sec]
+                if mode == "explicit" or (mode == "macro" and not defines) or (mode == "macro" and sec not in ("bonds", "angles")):
+                    params = [func] + [_num(draw) for _ in range(2)] + (["2"] if sec == "dihedrals" else [])
+                    inter.append({"sec": sec, "atoms": listed, "params": params, "mode": "explicit"})
+                elif mode == "macro":
+                    inter.append({"sec": sec, "atoms": listed, "params": [func, "gb_1" if sec == "bonds" else "ga_2"],
+                                  "mode": "macro"})
+                else:
+                    inter.append({"sec": sec, "atoms": listed, "params": [func], "mode": "typed"})
+                    # table entries that may match
+                    key = typed(win)
+                    nentries = draw(st.integers(0, 3))
+                    for _ in range(nentries):
+                        k = list(key) if draw(st.booleans()) else list(key[::-1])
                         if sec == "dihedrals":
-                            terms.append([func, _num(draw), _num(draw), str(m + 1)])
-                        elif sec == "constraints":
-                            terms.append([func, _num(draw)])
-                        else:
-                            terms.append([func, _num(draw), _num(draw)])
-                    if any(e["key"] == k for e in tables[sec]):
-                        continue
-                    tables[sec].append({"key": k, "terms": terms,
-                                        "ifdef": draw(st.sampled_from([None, None, None, "FLEX"]))})
+                            mask = draw(st.integers(0, 15))
+                            k = ["X" if (mask >> i) & 1 else v for i, v in enumerate(k)]
+                        elif draw(st.integers(0, 5)) == 0:
+                            k[draw(st.integers(0, n - 1))] = draw(st.sampled_from(keyspace))
+                        nterm = draw(st.sampled_from([1, 1, 2, 3])) if sec == "dihedrals" else 1
+                        terms = []
+                        for m in range(nterm):
+                            if sec == "dihedrals":
+                                terms.append([func, _num(draw), _num(draw), str(m + 1)])
+                            elif sec == "constraints":
+                                terms.append([func, _num(draw)])
+                            else:
+                                terms.append([func, _num(draw), _num(draw)])
+                        if any(e["key"] == k for e in tables[sec]):
+                            continue
+                        tables[sec].append({"key": k, "terms": terms,
+                                            "ifdef": draw(st.sampled_from([None, None, None, "FLEX"]))})
+        mols.append({"name": f"MOL{mi}", "atoms": atoms, "inter": inter, "count": draw(st.integers(0 if mi else 1, 4))})
+    order = list(draw(st.permutations(range(len(mols)))))
     return {"comb": comb, "gen_pairs": draw(st.booleans()), "opls": opls, "atomtypes": atomtypes,
-            "nonbond": nonbond, "atoms": atoms, "inter": inter, "tables": tables, "defines": defines,
-            "count": draw(st.integers(1, 4)), "rng": draw(st.integers(0, 2**31 - 1))}
+            "nonbond": nonbond, "mols": mols, "mol_order": order, "tables": tables, "defines": defines,
+            "rng": draw(st.integers(0, 2**31 - 1))}
 
 
 def strategy(tier):
@@ -128,10 +132,12 @@ def enumerate_cases(tier, seed):
                         tables["dihedrals"].append({"key": list(types), "terms": [["9", "90.0", "1.0", "1"]], "ifdef": None})
                     cases.append({"comb": 2, "gen_pairs": True, "opls": False,
                                   "atomtypes": [{"name": t, "btype": t, "mass": 12.0, "nb1": 0.3, "nb2": 0.5} for t in types],
-                                  "nonbond": [], "atoms": list(types),
-                                  "inter": [{"sec": "dihedrals", "atoms": [3, 2, 1, 0] if listed_rev else [0, 1, 2, 3],
-                                             "params": ["9"], "mode": "typed"}],
-                                  "tables": tables, "defines": {}, "count": 2, "rng": 1, "grid": True})
+                                  "nonbond": [],
+                                  "mols": [{"name": "MOL0", "atoms": list(types), "count": 2,
+                                            "inter": [{"sec": "dihedrals", "atoms": [3, 2, 1, 0] if listed_rev else [0, 1, 2, 3],
+                                                       "params": ["9"], "mode": "typed"}]}],
+                                  "mol_order": [0],
+                                  "tables": tables, "defines": {}, "rng": 1, "grid": True})
     return cases
 
 
@@ -164,23 +170,28 @@ def render(spec):
                 lines.append(" ".join(e["key"] + term))
             if e["ifdef"]:
                 lines.append("#endif")
-    lines += ["[ moleculetype ]", "MOL 1", "[ atoms ]"]
-    for i, t in enumerate(spec["atoms"], start=1):
-        lines.append(f"{i} {t} 1 RES A{i} {i} 0.0 12.0")
-    for sec in NAT:
-        items = [it for it in spec["inter"] if it["sec"] == sec]
-        if items:
-            lines.append(f"[ {sec} ]")
-            for it in items:
-                lines.append(" ".join([str(a + 1) for a in it["atoms"]] + it["params"]))
-    lines += ["[ system ]", "test", "[ molecules ]", f"MOL {spec['count']}"]
+    for mol in spec["mols"]:
+        lines += ["[ moleculetype ]", f"{mol['name']} 1", "[ atoms ]"]
+        for i, t in enumerate(mol["atoms"], start=1):
+            lines.append(f"{i} {t} 1 RES A{i} {i} 0.0 12.0")
+        for sec in NAT:
+            items = [it for it in mol["inter"] if it["sec"] == sec]
+            if items:
+                lines.append(f"[ {sec} ]")
+                for it in items:
+                    lines.append(" ".join([str(a + 1) for a in it["atoms"]] + it["params"]))
+    lines += ["[ system ]", "test", "[ molecules ]"]
+    for mi in spec["mol_order"]:
+        mol = spec["mols"][mi]
+        if mol["count"]:
+            lines.append(f"{mol['name']} {mol['count']}")
     return "\n".join(lines) + "\n"
 
 
-def resolve(spec, it):
+def resolve(spec, mol, it):
     """R3: list of allowed term lists (each a list of parameter lists) or None if nothing matches."""
     btype = {a["name"]: a["btype"] for a in spec["atomtypes"]}
-    t = [btype[spec["atoms"][i]] for i in it["atoms"]]
+    t = [btype[mol["atoms"][i]] for i in it["atoms"]]
     entries = spec["tables"][it["sec"]]
     exact = [e for e in entries if e["key"] == t]
     if exact:
@@ -217,15 +228,16 @@ def check(spec, ctx):
     resolved = {}
     competing_any = False
     multi_any = False
-    for n, it in enumerate(spec["inter"]):
-        if it["mode"] == "typed":
-            allowed, rank, competing = resolve(spec, it)
-            resolved[n] = allowed
-            if allowed is None:
-                expect_error = n
-            else:
-                competing_any = competing_any or competing
-                multi_any = multi_any or any(len(t) > 1 for t in allowed)
+    for mi, mol in enumerate(spec["mols"]):
+        for n, it in enumerate(mol["inter"]):
+            if it["mode"] == "typed":
+                allowed, rank, competing = resolve(spec, mol, it)
+                resolved[(mi, n)] = allowed
+                if allowed is None:
+                    expect_error = (mi, n)
+                else:
+                    competing_any = competing_any or competing
+                    multi_any = multi_any or any(len(t) > 1 for t in allowed)
     try:
         topology = Topology.from_gmx_topfile(str(path), "test")
         topology.preprocess()
@@ -233,37 +245,44 @@ def check(spec, ctx):
         if expect_error is not None:
             ctx.label("no_match_rejected")
             return
-        it = [i for i in spec["inter"] if i["mode"] == "typed"]
         raise Violation("bonded:no_match_although_type_exists", f"{err} :: {render(spec)[-400:]}"[:600])
     except Exception as err:
         raise crash("preprocess:crash", err)
     if expect_error is not None:
-        it = spec["inter"][expect_error]
+        it = spec["mols"][expect_error[0]]["inter"][expect_error[1]]
         raise Violation("bonded:unmatched_interaction_accepted", f"{it} has no bonded type but preprocessing succeeded")
-    if len(topology.molecules) != spec["count"]:
-        raise Violation("instances:count", f"{len(topology.molecules)} != {spec['count']}")
-    for inst, meta in enumerate(topology.molecules):
+    expanded = [mi for mi in spec["mol_order"] for _ in range(spec["mols"][mi]["count"])]
+    if len(topology.molecules) != len(expanded):
+        raise Violation("instances:count", f"{len(topology.molecules)} != {len(expanded)}")
+    norm = lambda terms: sorted(tuple(_f(p) for p in term) for term in terms)
+    for inst, (meta, mi) in enumerate(zip(topology.molecules, expanded)):
+        mol = spec["mols"][mi]
         got = {}
         for sec, items in meta.molecule.interactions.items():
             for g in items:
                 got.setdefault((sec, tuple(g.atoms)), []).append([str(p) for p in g.parameters])
-        for n, it in enumerate(spec["inter"]):
+        wanted_keys = set()
+        for n, it in enumerate(mol["inter"]):
             key = (it["sec"], tuple(it["atoms"]))
+            wanted_keys.add(key)
             have = got.get(key, [])
             if it["mode"] == "explicit":
                 want_sets = [[it["params"]]]
             elif it["mode"] == "macro":
                 want_sets = [[[it["params"][0]] + spec["defines"][it["params"][1]]]]
             else:
-                want_sets = resolved[n]
-            same_key = [j for j in spec["inter"] if (j["sec"], tuple(j["atoms"])) == key]
+                want_sets = resolved[(mi, n)]
+            same_key = [j for j in mol["inter"] if (j["sec"], tuple(j["atoms"])) == key]
             if len(same_key) > 1:
                 continue
-            norm = lambda terms: sorted(tuple(_f(p) for p in term) for term in terms)
             if not any(norm(have) == norm(w) for w in want_sets):
                 raise Violation(f"bonded:{it['mode']}_parameters",
-                                f"instance {inst} {it['sec']} atoms {it['atoms']} ({it['mode']}): got {have} "
+                                f"instance {inst} ({mol['name']}) {it['sec']} atoms {it['atoms']} ({it['mode']}): got {have} "
                                 f"expected one of {want_sets}")
+        extra = [k for k in got if k not in wanted_keys and got[k]]
+        if extra:
+            raise Violation("bonded:unexplained_interaction", f"instance {inst} ({mol['name']}) carries interactions that its "
+                                                              f"molecule type does not define: {extra[:3]} -> {[got[k] for k in extra[:3]]}")
     # non-bonded table
     nb = topology.nonbond_params
     types = [a["name"] for a in spec["atomtypes"]]
@@ -308,9 +327,11 @@ def check(spec, ctx):
         ctx.label("opls_bond_types")
     if spec.get("grid"):
         ctx.label("mask_grid")
-    if any(i["mode"] == "macro" for i in spec["inter"]):
+    if any(i["mode"] == "macro" for m in spec["mols"] for i in m["inter"]):
         ctx.label("macro")
-    ctx.nontrivial = competing_any or (spec["count"] >= 2 and multi_any)
+    if len([m for m in spec["mols"] if m["count"]]) >= 2:
+        ctx.label("several_molecule_types")
+    ctx.nontrivial = competing_any or (len(expanded) >= 2 and multi_any)
 
 
 def _f(p):
